@@ -29,6 +29,13 @@ def build(tier):
                      ["1 <= n <= 4", "0 <= i0 <= 2 and 0 <= i1 <= 2 and 0 <= i2 <= 2 and 0 <= i3 <= 2", "n >= 2 or i1 == 0", "n >= 3 or i2 == 0", "n >= 4 or i3 == 0", "0 <= cwd_i <= 1"],
                      "L.check_backslash(n, i0, i1, i2, i3, cwd_i, 3)", sig="hb.KEY")
     conds += [Cond("chars_backslash_b3", "prop", T, group="chars"), Cond("chars_backslash_b3__twin", "twin", 40, group="chars")]
+    # known finding (windows flavour only): a backslash inside a name splits the REAL path while the virtual path keeps one segment
+    src += hgen.cond("one_to_one_b3", "n: int, i0: int, i1: int, i2: int, cwd_i: int", ["1 <= n <= 3", "0 <= i0 <= 1 and 0 <= i1 <= 1 and 0 <= i2 <= 1", "n >= 2 or i1 == 0", "n >= 3 or i2 == 0", "0 <= cwd_i <= 1"],
+                     "L.check_one_to_one(n, i0, i1, i2, cwd_i, 3)", sig="hb.KEY")
+    conds += [Cond("one_to_one_b3", "prop", T, group="one_to_one"), Cond("one_to_one_b3__twin", "twin", 40, group="one_to_one")]
+    src += hgen.cond("one_to_one_b0", "n: int, i0: int, i1: int, i2: int, cwd_i: int", ["1 <= n <= 3", "0 <= i0 <= 1 and 0 <= i1 <= 1 and 0 <= i2 <= 1", "n >= 2 or i1 == 0", "n >= 3 or i2 == 0", "0 <= cwd_i <= 1"],
+                     "L.check_one_to_one(n, i0, i1, i2, cwd_i, 0)", sig="hb.KEY")
+    conds += [Cond("one_to_one_b0", "prop", T, group="one_to_one_posix"), Cond("one_to_one_b0__twin", "twin", 40, group="one_to_one_posix")]
     src += hgen.cond("chars_empty", "cwd_i: int, bi: int", ["0 <= cwd_i < 4 and 0 <= bi < 5"], "L.check('', L.CWDS[cwd_i], bi)", sig="hb.KEY")
     conds += [Cond("chars_empty", "prop", T, group="chars"), Cond("chars_empty__twin", "twin", 40, group="chars")]
     # (2) segment level (Mode A), partitioned by base flavour and first segment
